@@ -80,8 +80,12 @@ class C03(FragHarness, WrapHarness):
             for n in (1, 2, 3) + (() if q else (4,)):
                 if n == 4 and nlw == 2:
                     continue
-                out.append({'algo': 'O', 'num': 'int', 'n': n, 'nlw': nlw, 'B': 64 if q else 1 << 10, 'LB': 256 if q else 1 << 12,
-                            'SB': 3, 'PB': 1, 'pen_le_next': True, 'lwmin': 0})
+                # n = 4 with widths <= 2^10 ran into solver time-outs (gap*gap over four symbolic widths): small ranges
+                # there -- the path structure through smawk is what n = 4 adds, the magnitudes are covered at n <= 3
+                big = n >= 4
+                out.append({'algo': 'O', 'num': 'int', 'n': n, 'nlw': nlw, 'B': 12 if big else (64 if q else 1 << 10),
+                            'LB': 40 if big else (256 if q else 1 << 12), 'SB': 1 if big else 3, 'PB': 1,
+                            'pen_le_next': True, 'lwmin': 0})
         # text level: wrap's general path with OptimalFit; fragments recomputed by the real pipeline stages
         for split in ('N', 'H'):
             for bw in (True, False):
@@ -92,15 +96,18 @@ class C03(FragHarness, WrapHarness):
         out += tmpl_spaces({'level': 'text', 'feat': 'full', 'algo': 'O', 'sep': 'A', 'split': 'H', 'bw': True, 'wmax': 1 << 16},
                            ['short', 'longword'] if q else ['short', 'longword', 'sentence', 'hyphens', 'wide'])
         # arbitrary non-negative penalties
-        out.append({'algo': 'O', 'num': 'int', 'n': 2 if q else 3, 'nlw': 1, 'B': 32, 'LB': 128, 'SB': 2, 'PB': 1,
+        out.append({'algo': 'O', 'num': 'int', 'n': 2, 'nlw': 1, 'B': 32, 'LB': 128, 'SB': 2, 'PB': 1,
                     'pen_le_next': True, 'lwmin': 0, 'sympen': True})
+        if not q:
+            out.append({'algo': 'O', 'num': 'int', 'n': 3, 'nlw': 1, 'B': 8, 'LB': 24, 'SB': 1, 'PB': 1,
+                        'pen_le_next': True, 'lwmin': 0, 'sympen': True, 'penmax': 64})
         return out
 
     def bounds_text(self, tier):
         q = tier == 'quick'
-        return ('wrap_optimal_fit through smawk MIR on 1..%d fragments with symbolic integer widths <= %d, whitespace <= 3, '
+        return ('wrap_optimal_fit through smawk MIR on 1..%d fragments with symbolic integer widths <= %d (<= 12 at n = 4), whitespace <= 3, '
                 'penalty width <= 1 and <= the next fragment width, one or two symbolic line widths >= 0 (at width 0 optimality under either reading of the short-last-line threshold); default '
-                'penalties, and arbitrary penalties <= 2^8 at n <= %d; oracle: cost <= cost of each of the 2^(n-1) '
+                'penalties, and arbitrary penalties <= 2^8 at n <= 2 (<= 64 with widths <= 8 at n = %d); oracle: cost <= cost of each of the 2^(n-1) '
                 'arrangements under an independent transcription of the documented cost model. The ~60-fragment '
                 'regime of the property text is outside the claim. Text level additionally on sentence templates; paragraphs of more than 7 fragments are compared with the arrangements one edit away (break moved / removed / added) only.' % (3 if q else 4, 64 if q else 1024, 2 if q else 3))
 
@@ -109,7 +116,7 @@ class C03(FragHarness, WrapHarness):
             return self.run_text(I, cfg)
         inp = self.gen_frags(I, cfg)
         if cfg.get('sympen'):
-            pen = [I.sym_int('pen%d' % k, 0, 1 << 8) for k in range(5)]
+            pen = [I.sym_int('pen%d' % k, 0, cfg.get('penmax', 1 << 8)) for k in range(5)]
             pen[2] = I.enumerate_int(pen[2], 'short_last_line_fraction', 4)
             inp['pen'] = pen
         I.inputs = inp
